@@ -30,6 +30,10 @@ fn budget(prop: &str, quick: bool) -> (f64, u64) {
         ("C09", false) => (32.0, 1 << 28),
         ("C10", true) => (24.0, 1 << 22),
         ("C10", false) => (32.0, 1 << 27),
+        ("C13", true) => (20.0, 1 << 20),
+        ("C13", false) => (24.0, 1 << 26),
+        ("C14", true) => (16.0, 1 << 19),
+        ("C14", false) => (20.0, 1 << 24),
         ("C17", true) => (16.0, 1 << 22),
         ("C17", false) => (24.0, 1 << 27),
         (_, true) => (16.0, 1 << 20),
@@ -39,7 +43,7 @@ fn budget(prop: &str, quick: bool) -> (f64, u64) {
 
 pub fn run(ctx: &Ctx, reg: &Registry, rep: &mut Report) {
     match ctx.prop.as_str() {
-        "C01" | "C02" | "C03" | "C05" | "C06" | "C07" | "C08" | "C09" | "C10" | "C17" => {
+        "C01" | "C02" | "C03" | "C05" | "C06" | "C07" | "C08" | "C09" | "C10" | "C13" | "C14" | "C17" => {
             let (exh, samples) = budget(&ctx.prop, ctx.quick());
             let plans = sweep::plan_for(reg, &ctx.prop, exh, samples);
             run_plans(ctx, reg, plans, rep);
@@ -60,7 +64,14 @@ pub fn run(ctx: &Ctx, reg: &Registry, rep: &mut Report) {
 }
 
 pub fn run_plans(ctx: &Ctx, reg: &Registry, plans: Vec<Plan>, rep: &mut Report) {
+    // debugging aid: SPVERIF_ONLY=<substring> restricts a run to matching sub-spaces
+    let only = std::env::var("SPVERIF_ONLY").ok();
     for p in plans {
+        if let Some(o) = &only {
+            if !p.name.contains(o.as_str()) {
+                continue;
+            }
+        }
         let t = std::time::Instant::now();
         sweep::run_plan(ctx, reg, &p, rep);
         if std::env::var("SPVERIF_VERBOSE").is_ok() {
